@@ -90,4 +90,62 @@ theorem C16_wait_returns_iff_all_stopped (ops : List Op) (l : Nat) :
   have := (rel_reach ops).wg l
   omega
 
+/-- First-startup callbacks run only at a Start (never at a reload, a stop or a signal), only for the instance that Start
+creates, and over any history each of them runs at most once. -/
+theorem C16_first_startup_once (ops : List Op) (g i : Nat) :
+    (trace State.init ops).count (.cb .fs g i) ≤ 1 ∧
+    ∀ (s : State) (op : Op), Event.cb .fs g i ∈ (step s op).2.events → (∃ c, op = .start c) ∧ g = s.next :=
+  ⟨count_once (fun _ _ h => (step_fs h).2) (fun _ _ => seg_count_own (fun _ _ h => Or.inl (step_fs h).1)) ops State.init,
+   fun _ _ h => step_fs h⟩
+
+/-- Startup callbacks run once per instance: over any history each OnStartup callback of each generation runs at most once,
+and only in the operation that creates the generation. -/
+theorem C16_startup_once (ops : List Op) (g i : Nat) :
+    (trace State.init ops).count (.cb .su g i) ≤ 1 := by
+  refine count_once (fun s op h => step_su_sv h (Or.inl ⟨g, i, rfl⟩)) (fun s op => ?_) ops State.init
+  by_cases h : Event.cb .su g i ∈ (step s op).2.events
+  · rcases step_events_cases h with ⟨c, rfl, _⟩ | ⟨c, o, rest, rfl, _, _⟩ | ⟨rfl, i', _, hl⟩ | ⟨n, rfl, _, i', _, hl | hl⟩
+    · exact nodup_count_le (start_pblk s c).nodup _
+    · exact nodup_count_le (restart_pblk s c).nodup _
+    · exact absurd hl not_stop_cb
+    · exact absurd hl (not_mem_cbs_kind (by decide))
+    · exact absurd hl (not_mem_cbs_kind (by decide))
+  · simp [List.count_eq_zero_of_not_mem h]
+
+/-- … before the instance accepts connections: in the segment of any operation, from any state, every Serve call of a
+generation is preceded by both OnStartup callbacks of that generation (and Serve calls of a generation occur only in the
+segment of the operation that creates it). -/
+theorem C16_startup_before_serve (s : State) (op : Op) (g k : Nat) (pre post : List Event)
+    (h : (step s op).2.events = pre ++ .serve g k :: post) :
+    .cb .su g 0 ∈ pre ∧ .cb .su g 1 ∈ pre ∧ g = s.next :=
+  ⟨(startup_before_serve h).1, (startup_before_serve h).2,
+   step_su_sv (by rw [h]; simp) (Or.inr ⟨g, k, rfl⟩)⟩
+
+example : ∃ pre post, (step State.init (.start ⟨[⟨.file, 1, false⟩], .none, false, false⟩)).2.events
+    = pre ++ .serve 1 0 :: post := ⟨[.cb .fs 1 0, .cb .fs 1 1, .cb .su 1 0, .cb .su 1 1, .listen 1 0], [], by decide⟩
+
+/-- Final-shutdown callbacks run only when the process shuts down: in any state, an operation whose segment contains one
+is a shutdown signal. -/
+theorem C16_final_shutdown_only_at_exit (s : State) (op : Op) (g i : Nat)
+    (h : Event.cb .fd g i ∈ (step s op).2.events) : ∃ n, op = .signal n :=
+  step_fd h
+
+/-- Process shutdown runs every live instance's shutdown callbacks exactly once however many signals arrive: over any
+history, with any number of signals (each standing for any number of concurrent ones) anywhere in it, no shutdown or
+final-shutdown callback is run twice by signals; the first signal runs all of them for every live instance; once the guard
+has fired a signal runs nothing. -/
+theorem C16_shutdown_once_any_signals (ops : List Op) :
+    (∀ e, (signalTrace State.init ops).count e ≤ 1) ∧
+    (∀ (s : State) (n : Nat), s.once = false → ∀ i ∈ s.insts,
+        cbs .sd i.gen ++ cbs .fd i.gen ⊆ (step s (.signal n)).2.events) ∧
+    (∀ (s : State) (n : Nat), s.once = true → (step s (.signal n)).2.events = []) :=
+  ⟨signalTrace_count ops State.init Ledger.init rel_init,
+   fun _ n ho _ hi => first_signal_runs_all ho n hi,
+   fun s n ho => by simp [step, ho]⟩
+
+/-- The wait-group counter of every lineage never goes negative (Go's `WaitGroup` would panic): after any history it is at
+least the number of Serve calls that stopping the live instances of the lineage will end. -/
+theorem C16_wait_group_never_negative (ops : List Op) (l : Nat) : 0 ≤ (stateAfter State.init ops).wg l :=
+  Int.le_trans (liveG_nonneg _ l) (wgCovers_after ops State.init wgCovers_init l)
+
 end Casket.Props.C16
